@@ -151,6 +151,17 @@ def _gt_random(rng, counters, keys):
         _check_pairs([(alleles, g), (b, gb)], counters, rng)
         if len(set(alleles)) >= 2:
             keys.add("gt:%s" % (tuple(sorted(alleles)),))
+        # neighbours: same ploidy, one small allele changed (shares the largest alleles); and a different ploidy
+        c = sorted(alleles)
+        c[0] = (c[0] + 1) % (hi + 1) if hi else c[0]
+        if sorted(c) != sorted(alleles):
+            gc = _check_one(Genotype, c, rng, counters)
+            _check_pairs([(alleles, g), (c, gc)], counters, rng)
+        d = sorted(alleles)[: max(0, p - rng.randint(1, 2))]
+        gd = Genotype(d)
+        if (g == gd) or not (g != gd):
+            raise Viol("Genotype(%r) == Genotype(%r) although the ploidies differ" % (alleles, d))
+        counters["gt_cross_ploidy_checked"] = counters.get("gt_cross_ploidy_checked", 0) + 1
     # empty genotype
     e = Genotype([])
     if not e.is_none() or e.get_ploidy() != 0 or str(e) != ".":
